@@ -256,3 +256,7 @@ mod test {
         );
     }
 }
+
+#[cfg(kani)]
+#[path = "/verif/harness/app_format_write.rs"]
+mod verif_harness;
